@@ -14,6 +14,6 @@ TESTS="$(cd "$WT" && /venv/bin/python -m pytest -q -p no:cacheprovider --timeout
 ( cd "$D" && /venv/bin/python demo.py "$WT" >/dev/null 2>&1 ); PATCHED=$?
 echo "demo clean=$CLEAN patched=$PATCHED tests: $TESTS"
 for C in "$@"; do
-  OUT="$(cd /verif && VERIF_EVIDENCE_DIR="$WT/.verif_evidence" VERIF_REPLAY_DIR="$WT/.verif_replays" PYGYRO_REPO="$WT" ./check "$C" --no-build 2>&1 | grep -E 'VIOLATION|^ok|^FAIL|HARNESS' | tr '\n' ' ')"
+  OUT="$(cd /verif && VERIF_EVIDENCE_DIR="$WT/.verif_evidence" VERIF_REPLAY_DIR="$WT/.verif_replays" PYGYRO_REPO="$WT" ./check "$C" --no-build ${EXTRA_ARGS:-} 2>&1 | grep -E 'VIOLATION|^ok|^FAIL|HARNESS' | tr '\n' ' ')"
   echo "check $C: $OUT"
 done
